@@ -2,7 +2,7 @@
 from collections import Counter
 
 from actor_rules import ACTIONS, is_usize_from_id, noref
-from common import bodies_with_closures, iter_places, outer_val
+from common import bodies_with_closures, edges_where, iter_places, outer_val
 from mir import AnchorMissing, V
 
 LEVEL_TEXT = (
@@ -347,19 +347,17 @@ def r4_actions(ctx, F):
               good='the Drop action carries the enumerated envelope',
               bad='ActorModel::actions: Drop does not carry the enumerated envelope')
     # Deliver only to existing actors
-    okl = False
-    for sw in b.switches:
-        on = sw.on
-        if on.kind == 'bin' and on.key[0] in ('Lt', 'Gt'):
-            ops = [noref(o) for o in on.key[1:]]
-            ca = [b.call_at(o.key) if o.kind == 'call' else None for o in ops]
-            idx = [k for k, c in enumerate(ca) if c is not None and is_usize_from_id(c)]
-            ln = [k for k, c in enumerate(ca) if c is not None and c.is_('Vec::len') and
-                  noref(b.val(c.args[0])).fields()[-1:] == ('.actors',)]
-            if idx and ln and ((on.key[0] == 'Lt' and idx[0] < ln[0]) or (on.key[0] == 'Gt' and idx[0] > ln[0])):
-                te = sw.edges_for(True)
-                if te and all(b.edges_dominate(te, i) for (i, st) in sites['Deliver']):
-                    okl = True
+    def is_idx(v):
+        v = noref(v)
+        c = b.call_at(v.key) if v.kind == 'call' else None
+        return c is not None and is_usize_from_id(c)
+
+    def is_len(v):
+        v = noref(v)
+        c = b.call_at(v.key) if v.kind == 'call' else None
+        return c is not None and c.is_('Vec::len') and noref(b.val(c.args[0])).fields()[-1:] == ('.actors',)
+    lt = edges_where(b, is_idx, is_len, 'lt')
+    okl = bool(lt) and all(b.edges_dominate(lt, i) for (i, st) in sites['Deliver'])
     ctx.check(okl, rule, 'deliver-only-to-existing-actor', b,
               good='Deliver is offered only when usize::from(dst) < actors.len()',
               bad='ActorModel::actions offers Deliver for destinations that are not actors of the model')
